@@ -189,6 +189,8 @@ def replay(case):
         return {"reproduced": code != sure, "detail": f"real is_covered={code}, oracle={sure}"}
     if k == "f1":
         return _replay_f1(case)
+    if k == "uncovered":
+        return _replay_uncovered(case)
     return {"reproduced": False, "detail": "unknown kind"}
 
 
@@ -269,6 +271,161 @@ def cover_task(cone, W, tier):
             r["inconclusive"].append(f"vacuity: outcome {lab} never reached")
     r["config"] = {"cone": cone, "m": m, "K": K}
     return r
+
+
+# -- ε-coverage counts --------------------------------------------------------------------------
+_LAMBDAS2 = [(1, 0), (0, 1), (1, 1), (2, 1), (1, 2)]
+
+
+def uncovered_task(cone, W, n1, n2, which, tier):
+    """real get_uncovered_size / get_uncovered_set on symbolic value vectors: the reported count (set) is
+    exactly the points of the first family that no point of the second ε-covers.  The per-pair oracle is
+    is_covered itself (proved equal to the geometric definition by eps_cover), called again by the
+    harness for every pair; answers for the same pair are tied together by instantiating each
+    infeasibility fact at the other call's witness."""
+    uu, ev = _mods()
+    W = np.asarray(W, dtype=float)
+    K, m = W.shape
+    Wq = Wz(W)
+    proxy = NpProxy()
+    ex = Explorer(f"uncovered_{which}[{cone},{n1}x{n2}]", query_timeout_ms=120000, max_paths=20000)
+    real_cov = uu.is_covered
+    if K != 2 or m != 2:
+        raise HarnessError("uncovered_task is set up for 2-facet 2-D cones")
+    Wf = [[Fraction(float(x)) for x in row] for row in W]
+    det = Wf[0][0] * Wf[1][1] - Wf[0][1] * Wf[1][0]
+    Winv = [[sym.rv(Wf[1][1] / det), sym.rv(-Wf[0][1] / det)], [sym.rv(-Wf[1][0] / det), sym.rv(Wf[0][0] / det)]]
+    nrm2 = [sym.rv(sum(x * x for x in row)) for row in Wf]
+
+    def body(ctx):
+        V = ctx.reals("v", n1 + n2, m)
+        Vb = V.view(np.ndarray)
+        eps = ctx.real("eps")
+        ctx.assume(eps >= 0)
+        first = {}
+
+        def locate(v, lo, hi):
+            vb = np.asarray(v, dtype=object).reshape(-1)
+            for r in range(lo, hi):
+                if len(vb) == m and all(vb[k] is Vb[r, k] for k in range(m)):
+                    return r
+            return None
+
+        def rec(vi, vj, e, W_):
+            n0 = len(cpshim.problems(ctx))
+            out = real_cov(vi, vj, e, W_)
+            ps = cpshim.problems(ctx)[n0:]
+            i, j = locate(vi, 0, n1), locate(vj, n1, n1 + n2)
+            if i is not None and j is not None and len(ps) == 1:
+                first[(i, j)] = ps[0]
+            return out
+
+        with patched((uu, {"np": proxy, "cp": cpshim.CpShim, "is_covered": rec})):
+            if which == "size":
+                got = uu.get_uncovered_size(V[:n1], V[n1:], eps, W)
+                reported = None
+            else:
+                got = uu.get_uncovered_set(list(range(n1)), list(range(n1, n1 + n2)), V, eps, W)
+                reported = [int(i) for i in got]
+                got = len(reported)
+        vz = zs(V)
+        with patched((uu, {"np": proxy, "cp": cpshim.CpShim})):
+            cov = {}
+            for i in range(n1):
+                for j in range(n1, n1 + n2):
+                    n0 = len(cpshim.problems(ctx))
+                    c = real_cov(V[i], V[j], eps, W)
+                    if not isinstance(c, (bool, np.bool_)):
+                        raise HarnessError(f"is_covered returned {type(c)}")
+                    cov[(i, j)] = bool(c)
+                    q = cpshim.problems(ctx)[n0]
+                    p_ = first.get((i, j))
+                    if p_ is not None and p_["outcome"] != q["outcome"]:
+                        a_, b_ = (q, p_) if q["outcome"] == "infeasible" else (p_, q)
+                        ctx.fact(a_["universal"].at(b_["witness"]))
+                    for pr in {id(q): q, id(p_): p_}.values():
+                        if pr is not None and pr["outcome"] == "infeasible" and not pr.get("instantiated"):
+                            pr["instantiated"] = True
+                            # the least-norm point of {c : Wc ≥ max(0, Wd)} (d = vi − vj; K = m = 2, unit rows) is one
+                            # of: b_k·w_k (one facet active) or W⁻¹b (both): instantiating there makes the
+                            # infeasibility fact complete, so no spurious model survives
+                            d = [vz[i][k] - vz[j][k] for k in range(m)]
+                            b = [z3.If(dotz(r, d) >= 0, dotz(r, d), sym.rv(0)) for r in Wq]
+                            cands = [[b[k] * Wq[k][t] / nrm2[k] for t in range(m)] for k in range(K)]
+                            cands.append([dotz(Winv[t], b) for t in range(m)])
+                            for c_ in cands:
+                                ctx.fact(pr["universal"].at([c_[t] - d[t] for t in range(m)]))
+        expected = [i for i in range(n1) if not any(cov[(i, j)] for j in range(n1, n1 + n2))]
+        ctx.witness(f"uncovered={len(expected)}")
+        ok = (int(got) == len(expected)) and (reported is None or reported == expected)
+        name = "reported uncovered points = points that no prediction ε-covers"
+        mdl = ctx.prove(name, z3.BoolVal(bool(ok)))
+        if mdl is not None:
+            # steer to a robust instance: every pair's verdict certified with a margin by a linear lower
+            # bound on the least cone vector (λᵀmax(0,Wd) ≤ ‖Wᵀλ‖·‖c‖) or by the strict orthant-type witness
+            certs = [eps.e >= Fraction(1, 10), eps.e <= 2]
+            for (i, j), cv in cov.items():
+                d = [vz[i][k] - vz[j][k] for k in range(m)]
+                wd = [dotz(r, d) for r in Wq]
+                pos = [z3.If(x >= 0, x, sym.rv(0)) for x in wd]
+                if not cv and K == 2:
+                    alts = []
+                    for lam in _LAMBDAS2:
+                        nrm = float(np.linalg.norm(W.T @ np.array(lam, dtype=float)))
+                        alts.append(sum((l * x for l, x in zip(lam, pos)), sym.rv(0)) >=
+                                    (eps.e * sym.rv(Fraction(102, 100)) + sym.rv(Fraction(1, 1000))) * sym.rv(Fraction(nrm)))
+                    certs.append(zor(alts))
+            for extra in (certs, [eps.e >= Fraction(1, 10)], []):
+                try:
+                    m2 = ctx.satisfiable(extra, timeout_ms=20000)
+                except Inconclusive:
+                    m2 = None
+                if m2 is not None:
+                    ex.candidate(name, {"kind": "uncovered", "which": which, "cone": cone, "W": W.tolist(), "n1": n1,
+                                        "V": frac_json([[model_value(m2, e) for e in row] for row in vz]),
+                                        "eps": frac_json(model_value(m2, eps.e))},
+                                 {"claim": name, "cone": cone, "which": which}, limit=6)
+                    break
+            return
+        ctx.sample({"cone": cone, "reported": int(got), "expected": expected})
+
+    ex.run(body)
+    ex.finalize(replay)
+    if any(v.get("reproduced") for v in ex.violations):
+        ex.violations = [v for v in ex.violations if v.get("reproduced")]
+    r = ex.result()
+    for k_ in range(n1 + 1):
+        if not ex.witnessed.get(f"uncovered={k_}"):
+            r["inconclusive"].append(f"vacuity: no path with {k_} uncovered points")
+    r["config"] = {"cone": cone, "n1": n1, "n2": n2, "which": which}
+    return r
+
+
+def _replay_uncovered(case):
+    uu, ev = _mods()
+    W = np.array(case["W"], dtype=float)
+    V = np.array([[float(Fraction(x)) for x in row] for row in from_frac_json(case["V"])])
+    eps = float(Fraction(from_frac_json(case["eps"])))
+    n1 = case["n1"]
+    want = []
+    for i in range(n1):
+        sure = [_cover_oracle(W, V[i], V[j], eps, 1e-6) for j in range(n1, len(V))]
+        poss = [_cover_oracle(W, V[i], V[j], eps, -1e-6) for j in range(n1, len(V))]
+        if sure != poss:
+            return {"reproduced": False, "detail": "within 1e-6 of the coverage boundary"}
+        if not any(sure):
+            want.append(i)
+    try:
+        if case["which"] == "size":
+            got = int(uu.get_uncovered_size(V[:n1].copy(), V[n1:].copy(), eps, W))
+            bad = got != len(want)
+        else:
+            got = [int(i) for i in uu.get_uncovered_set(list(range(n1)), list(range(n1, len(V))), V.copy(), eps, W)]
+            bad = got != want
+    except Exception as ex:  # noqa
+        return {"reproduced": True, "detail": "raised " + repr(ex)}
+    return {"reproduced": bool(bad), "detail": f"get_uncovered_{case['which']} = {got}; by the definition the uncovered points are "
+            f"{want} (points {V[:n1].tolist()}, predictions {V[n1:].tolist()}, ε={eps})"}
 
 
 # -- ε-F1 ------------------------------------------------------------------------------------
@@ -413,6 +570,12 @@ def tasks(tier, seed):
         ts.append({"id": f"gap[{cone},N={N}]", "fn": "mij_task", "args": {"cone": cone, "W": W.tolist(), "N": N, "tier": tier},
                    "weight": 3 if m == 3 else 1})
         ts.append({"id": f"cover[{cone}]", "fn": "cover_task", "args": {"cone": cone, "W": W.tolist(), "tier": tier}})
+    for cone, W in cones:
+        if W.shape == (2, 2) and (tier != "quick" or cone in ("orthant2", "theta45", "theta60", "theta120")):
+            for which in ("size", "set"):
+                ts.append({"id": f"uncovered_{which}[{cone}]", "fn": "uncovered_task",
+                           "args": {"cone": cone, "W": W.tolist(), "n1": 1 if tier == "quick" else 2, "n2": 2,
+                                    "which": which, "tier": tier}, "weight": 5})
     f1_cones = [c for c in cones if c[0] in ("orthant2", "theta60", "theta120")]
     for cone, W in (f1_cones[:2] if tier == "quick" else f1_cones):
         for sc in ("range", "permute", "monotone"):
@@ -430,9 +593,10 @@ def meta(tier):
     uu, ev = _mods()
     return {
         "level": "model_checking",
-        "functions": src_info(uu.get_smallmij, uu.get_delta, uu.is_covered, uu.get_uncovered_size,
+        "functions": src_info(uu.get_smallmij, uu.get_delta, uu.is_covered, uu.get_uncovered_size, uu.get_uncovered_set,
                               ev.calculate_epsilonF1_score),
-        "bounds": {"N": "2 value vectors for ε-F1 and gaps (3 for gaps in the thorough tier, 2-D cones)", "m": "2 (3 for m(i,j))", "cones": [c for c, _ in cone_set(tier)]},
+        "bounds": {"N": "2 value vectors for ε-F1 and gaps (3 for gaps in the thorough tier, 2-D cones)", "m": "2 (3 for m(i,j))",
+                   "coverage counts": "1 point (2 thorough) against 2 predictions, 2-D cones", "cones": [c for c, _ in cone_set(tier)]},
         "stubs": ["cvxpy exact-answer stub for utils.is_covered", "α concrete = VOPy's own get_alpha_vec output "
                   "(cross-checked against an independent KKT oracle; its optimality is C17)"],
         "assumptions": ["floats are encoded as exact reals", "α's defining property w_n·u ≤ α_n for unit u∈C is used as a "
